@@ -129,6 +129,7 @@ def plan(tier, seed):
     r = random.Random(seed * 307 + 7)
     n_cases, per = (64, 40) if tier == "quick" else (640, 150)
     cases = []
+    n_settings_specs = [0]
     for i in range(n_cases):
         flavor = ["asyncio", "trio"][i % 2]
         specs = []
@@ -142,6 +143,17 @@ def plan(tier, seed):
                 over.update(proto="h1tls", proxy=r.choice([None, "socks", "tun"]), pool_kw={"http2": True})
             elif kind < 0.45:
                 over.update(proto="h2", proxy=None, h2_settings={3: r.choice([1, 2, 3])})  # MAX_CONCURRENT_STREAMS
+                if r.random() < 0.5:
+                    # the server lowers its stream limit (below what is in flight) at the head of one of the first requests
+                    # of a connection, and may raise it again later: requests that wait for a stream slot meanwhile must
+                    # get one when the streams in flight finish
+                    first = r.choice([3, 4, 6])
+                    acts = [{"when": ["head", r.randrange(1, first)], "do": "settings", "settings": {"3": r.choice([1, 1, 2])}}]
+                    if r.random() < 0.4:
+                        acts.append({"when": ["end", r.randrange(first, first + 4)], "do": "settings", "settings": {"3": r.choice([3, 10])}})
+                    over.update(h2_settings={3: first}, h2_script={"actions": acts}, n_origins=1, max_connections=1,
+                                n_callers=r.randint(4, 8), resp_delay=r.choice([0.1, 1.0]), think=r.choice([0.0, 0.3]))
+                    n_settings_specs[0] += 1
             specs.append(gen_spec(r, flavor, **over))
         cases.append({"flavor": flavor, "specs": specs, "seed": r.randrange(1 << 30)})
     return cases
